@@ -1,3 +1,155 @@
 import MypyVerif.Proofs.Reach
+/-!
+# C12 (version / platform tests) — what mypy decides statically is the run-time value on the target
+
+Property theorems only (helpers are in Proofs/Reach.lean).  Quantifiers: every target (major, minor), every
+micro / releaselevel / serial of the running interpreter (`EnvFor`), every platform string, every operand
+form and literal of the grammar in Model/Reach.lean (any index, any slice bounds, any literal length),
+both operand orders, every condition built with not / and / or.
+
+The full statement `version_test_exact` is **false** (finding F4): `not_version_test_exact`.  The excluded
+predicate `f4Shape` is exact — inside it mypy's answer is always the wrong one (`f4_always_wrong`).
+-/
 namespace Reach
+
+/-! ## sys.version_info tests -/
+
+/-- **version_test_exact_partial.**  A single comparison that consider_sys_version_info decides, and that is
+    not of the F4 shape, has exactly the decided value when it is evaluated on the target. -/
+theorem version_test_exact_partial (o : Options) (env : Env) (henv : EnvFor o env)
+    (l : Operand) (op : Op) (r : Operand)
+    (hdec : considerSysVersionInfo l op r o.major o.minor ≠ .unknown)
+    (hshape : f4Shape l op r o.major o.minor = false) :
+    eval env (.cmp l op r) = some (considerSysVersionInfo l op r o.major o.minor == .alwaysTrue) := by
+  obtain ⟨⟨mc, lv, se, hvi⟩, _⟩ := henv
+  exact version_cmp_exact env o.major o.minor mc se lv hvi l op r _ rfl hdec hshape
+
+/-- The excluded shape is exactly the failing set: there mypy's answer is the opposite of the run-time value,
+    for every target and every micro version. -/
+theorem f4_always_wrong (o : Options) (env : Env) (henv : EnvFor o env)
+    (l : Operand) (op : Op) (r : Operand)
+    (hdec : considerSysVersionInfo l op r o.major o.minor ≠ .unknown)
+    (hshape : f4Shape l op r o.major o.minor = true) :
+    eval env (.cmp l op r) = some (!(considerSysVersionInfo l op r o.major o.minor == .alwaysTrue)) := by
+  obtain ⟨⟨mc, lv, se, hvi⟩, _⟩ := henv
+  exact version_cmp_f4_wrong env o.major o.minor mc se lv hvi l op r _ rfl hdec hshape
+
+def target312 : Options := { major := 3, minor := 12, platform := "linux", alwaysTrue := [], alwaysFalse := [] }
+def run312 : Env :=
+  { versionInfo := versionTuple 3 12 0 "final" 0, platform := "linux",
+    names := fun n => if n = "TYPE_CHECKING" then some false else none, opq := fun _ => none }
+
+theorem envFor312 : EnvFor target312 run312 := ⟨⟨0, "final", 0, rfl⟩, rfl⟩
+
+/-- **not_version_test_exact** (F4): `sys.version_info > (3, 12)` for target 3.12 is ALWAYS_FALSE for mypy
+    and True on Python 3.12.0. -/
+theorem not_version_test_exact :
+    ¬ (∀ (o : Options) (env : Env) (l : Operand) (op : Op) (r : Operand), EnvFor o env →
+        considerSysVersionInfo l op r o.major o.minor ≠ .unknown →
+        eval env (.cmp l op r) = some (considerSysVersionInfo l op r o.major o.minor == .alwaysTrue)) := by
+  intro h
+  have := h target312 run312 .versionInfo .gt (.tuple [.int 3, .int 12]) envFor312 (by decide)
+  revert this
+  decide
+
+-- the other three operators, the mirrored spelling, and an open-ended slice that is not the whole tuple
+example : considerSysVersionInfo .versionInfo .eq (.tuple [.int 3, .int 12]) 3 12 = .alwaysTrue ∧
+    eval run312 (.cmp .versionInfo .eq (.tuple [.int 3, .int 12])) = some false := by decide
+example : considerSysVersionInfo .versionInfo .ne (.tuple [.int 3, .int 12]) 3 12 = .alwaysFalse ∧
+    eval run312 (.cmp .versionInfo .ne (.tuple [.int 3, .int 12])) = some true := by decide
+example : considerSysVersionInfo .versionInfo .le (.tuple [.int 3, .int 12]) 3 12 = .alwaysTrue ∧
+    eval run312 (.cmp .versionInfo .le (.tuple [.int 3, .int 12])) = some false := by decide
+example : considerSysVersionInfo (.tuple [.int 3, .int 12]) .lt .versionInfo 3 12 = .alwaysFalse ∧
+    eval run312 (.cmp (.tuple [.int 3, .int 12]) .lt .versionInfo) = some true := by decide
+example : considerSysVersionInfo (.slice (some (.int 1)) none none) .eq (.tuple [.int 12]) 3 12 = .alwaysTrue ∧
+    eval run312 (.cmp (.slice (some (.int 1)) none none) .eq (.tuple [.int 12])) = some false := by decide
+-- non-vacuity of the partial theorem: ordinary tests are decided and are outside the excluded shape
+example : considerSysVersionInfo .versionInfo .ge (.tuple [.int 3, .int 12]) 3 12 = .alwaysTrue ∧
+    f4Shape .versionInfo .ge (.tuple [.int 3, .int 12]) 3 12 = false := by decide
+example : considerSysVersionInfo .versionInfo .lt (.tuple [.int 3, .int 12]) 3 12 = .alwaysFalse ∧
+    f4Shape .versionInfo .lt (.tuple [.int 3, .int 12]) 3 12 = false := by decide
+example : considerSysVersionInfo (.slice none (some (.int 2)) none) .eq (.tuple [.int 3, .int 12]) 3 12 = .alwaysTrue ∧
+    f4Shape (.slice none (some (.int 2)) none) .eq (.tuple [.int 3, .int 12]) 3 12 = false := by decide
+example : considerSysVersionInfo (.lit (.int 3)) .le (.index (.int 0)) 3 12 = .alwaysTrue ∧
+    f4Shape (.lit (.int 3)) .le (.index (.int 0)) 3 12 = false := by decide
+example : considerSysVersionInfo .versionInfo .gt (.tuple [.int 3, .int 11]) 3 12 = .alwaysTrue ∧
+    f4Shape .versionInfo .gt (.tuple [.int 3, .int 11]) 3 12 = false := by decide
+
+/-! ## sys.platform tests -/
+
+/-- **platform_test_exact.**  A `sys.platform == / != '…'` or `sys.platform.startswith('…')` test that
+    consider_sys_platform decides has the decided value on that platform.  (Written with a keyword
+    argument the call is decided too, but raises at run time: then there is no value to disagree with.) -/
+theorem platform_test_exact (o : Options) (env : Env) (henv : EnvFor o env) (c : Cond)
+    (hdec : considerSysPlatform c o.platform ≠ .unknown) :
+    (isCallKw c = false → eval env c = some (considerSysPlatform c o.platform == .alwaysTrue)) ∧
+    (∀ b, eval env c = some b → b = (considerSysPlatform c o.platform == .alwaysTrue)) :=
+  platform_exact env o.platform henv.2 c _ rfl hdec
+
+example : considerSysPlatform (.cmp .platform .eq (.str "linux")) "linux" = .alwaysTrue ∧
+    considerSysPlatform (.cmp .platform .ne (.str "win32")) "linux" = .alwaysTrue ∧
+    considerSysPlatform (.call .platform "startswith" (.str "win")) "linux" = .alwaysFalse ∧
+    considerSysPlatform (.cmp (.str "linux") .eq .platform) "linux" = .unknown := by decide
+
+/-! ## infer_condition_value: not / and / or -/
+
+/-- **Mypy-time soundness** (all five truth values, every table entry): a decided condition without an
+    F4-shaped comparison has the decided value when evaluated the way mypy sees the world. -/
+theorem infer_sound_mypy (o : Options) (env : Env) (henv : EnvFor o env) (hn : NamesOK o env) (c : Cond)
+    (hshape : noF4 o c = true) (hdec : infer o c ≠ .unknown) :
+    ∀ b, eval (mtEnv env) c = some b → b = (infer o c).mt :=
+  (infer_sound o env henv hn c hshape hdec).1
+
+/-- **Run-time soundness, partial**: the same for the run-time value, provided no `and` / `or` node of the
+    condition uses one of the table entries listed in `badOr` / `badAnd`. -/
+theorem infer_sound_runtime_partial (o : Options) (env : Env) (henv : EnvFor o env) (hn : NamesOK o env)
+    (c : Cond) (hshape : noF4 o c = true) (hpairs : noBadPair o c = true) (hdec : infer o c ≠ .unknown) :
+    ∀ b, eval env c = some b → b = (infer o c).rt :=
+  (infer_sound o env henv hn c hshape hdec).2 hpairs
+
+/-- **Run-time soundness for version / platform conditions** (the scope of C12): a condition that does not
+    mention MYPY / TYPE_CHECKING never hits a bad table entry, so its decided value is its run-time value. -/
+theorem infer_sound_runtime_version (o : Options) (env : Env) (henv : EnvFor o env) (hn : NamesOK o env)
+    (c : Cond) (hshape : noF4 o c = true) (hpure : noMypyNames c = true) (hdec : infer o c ≠ .unknown) :
+    ∀ b, eval env c = some b → b = (infer o c).rt :=
+  (infer_sound o env henv hn c hshape hdec).2 (noBad_of_pure o c hpure)
+
+theorem namesOK312 : NamesOK target312 run312 := by
+  intro n b hb _
+  simp only [run312] at hb
+  split at hb
+  · next h => subst h; injection hb with hb; subst hb; decide
+  · cases hb
+
+/-- **not_tables_runtime_sound** (new finding): `sys.version_info < (3,) or not TYPE_CHECKING` is ALWAYS_FALSE
+    for infer_condition_value ("false under mypy and at run time") and True at run time: the `or` table maps
+    (ALWAYS_FALSE, MYPY_FALSE) to ALWAYS_FALSE where the value is MYPY_FALSE. -/
+theorem not_tables_runtime_sound :
+    ¬ (∀ (o : Options) (env : Env) (c : Cond), EnvFor o env → NamesOK o env → noF4 o c = true →
+        infer o c ≠ .unknown → ∀ b, eval env c = some b → b = (infer o c).rt) := by
+  intro h
+  have := h target312 run312
+    (.or (.cmp .versionInfo .lt (.tuple [.int 3])) (.not (.name "TYPE_CHECKING")))
+    envFor312 namesOK312 (by decide) (by decide) true (by decide)
+  revert this
+  decide
+
+/-- The excluded table entries are exact: each of them is wrong for some evaluation that respects the
+    operands' own claims; every other entry is right (`orTable_rt`, `andTable_rt` in Proofs). -/
+theorem bad_entries_exact (ta tb : TV) :
+    (badOr ta tb = true → ∃ va vb v, (ta ≠ .unknown → va = ta.rt) ∧ Claim TV.rt tb vb ∧
+      orVal va vb = some v ∧ orTable ta tb ≠ .unknown ∧ v ≠ (orTable ta tb).rt) ∧
+    (badAnd ta tb = true → ∃ va vb v, (ta ≠ .unknown → va = ta.rt) ∧ Claim TV.rt tb vb ∧
+      andVal va vb = some v ∧ andTable ta tb ≠ .unknown ∧ v ≠ (andTable ta tb).rt) :=
+  ⟨badOr_exact ta tb, badAnd_exact ta tb⟩
+
+-- non-vacuity: a mixed condition satisfies every hypothesis and is decided
+example :
+    let c := Cond.and (.or (.cmp .versionInfo .ge (.tuple [.int 3, .int 8])) (.opaque 0))
+                      (.not (.cmp .platform .eq (.str "win32")))
+    noF4 target312 c = true ∧ noBadPair target312 c = true ∧ noMypyNames c = true ∧
+      infer target312 c = .alwaysTrue := by decide
+example : infer target312 (.and (.cmp .platform .eq (.str "linux")) (.not (.name "TYPE_CHECKING"))) = .mypyFalse ∧
+    noBadPair target312 (.and (.cmp .platform .eq (.str "linux")) (.not (.name "TYPE_CHECKING"))) = true := by decide
+
 end Reach
